@@ -122,6 +122,8 @@ def render(toks, src=None):
                 if '//' in gap or '/*' in gap:
                     gap = '\n' + ' ' * 8 if '\n' in gap else ' '
                 out.append(gap if gap else '')
+            elif prev.text in (';', '{', '}') or (t.text == '}' and prev.text != '{'):
+                out.append('\n        ')
             else:
                 out.append(' ')
         out.append(t.text)
@@ -145,34 +147,49 @@ def texts(s):
 # ---------------------------------------------------------------- macro expansion (R6)
 
 class Macro:
+    """a macro_rules! definition: one or more arms, fragment kinds ident/expr/ty only, no repetitions"""
+
     def __init__(self, sf, item):
         toks = sf.toks
-        b = item.body_lo
-        e = item.hi
-        inner = toks[b + 1:e]
-        # single arm:  ( pattern ) => { body } [;]
-        if not inner or inner[0].text not in ('(', '[', '{'):
-            raise Unsupported(f'macro {item.name}: arm shape')
-        pe = match_close(inner, 0)
-        self.pattern = inner[1:pe]
-        if inner[pe + 1].text != '=>':
-            raise Unsupported(f'macro {item.name}: expected =>')
-        bs = pe + 2
-        be = match_close(inner, bs)
-        rest = [t for t in inner[be + 1:] if t.text != ';']
-        if rest:
-            raise Unsupported(f'macro {item.name}: more than one arm (not supported by the weaver)')
-        body = inner[bs + 1:be]
+        inner = toks[item.body_lo + 1:item.hi]
+        self.name = item.name
+        self.arms = []
+        i = 0
+        while i < len(inner):
+            if inner[i].text == ';':
+                i += 1
+                continue
+            if inner[i].text not in ('(', '[', '{'):
+                raise Unsupported(f'macro {item.name}: arm shape')
+            pe = match_close(inner, i)
+            if inner[pe + 1].text != '=>':
+                raise Unsupported(f'macro {item.name}: expected =>')
+            bs = pe + 2
+            be = match_close(inner, bs)
+            self.arms.append(MacroArm(item.name, inner[i + 1:pe], inner[bs + 1:be]))
+            i = be + 1
+        if not self.arms:
+            raise Unsupported(f'macro {item.name}: no arms')
+
+    def expand(self, args):
+        last = None
+        for arm in self.arms:
+            try:
+                return arm.expand(args)
+            except Unsupported as e:
+                last = e
+        raise last
+
+
+class MacroArm:
+    def __init__(self, name, pattern, body):
+        self.name = name
+        self.pattern = pattern
         self.block = False
         if body and body[0].text == '{' and match_close(body, 0) == len(body) - 1:
             self.block = True  # `{{ ... }}`: expands to a block expression
             body = body[1:-1]
         self.body = body
-        self.name = item.name
-        self.src = sf
-        for t in self.pattern + self.body:
-            if t.text == '$' and False:
-                pass
         # pattern elements
         self.elems = []
         i = 0
@@ -180,10 +197,10 @@ class Macro:
         while i < len(p):
             if p[i].text == '$':
                 if p[i + 1].text == '(':
-                    raise Unsupported(f'macro {item.name}: repetitions are not supported by the weaver')
+                    raise Unsupported(f'macro {name}: repetitions are not supported by the weaver')
                 var, kind = p[i + 1].text, p[i + 3].text
                 if kind not in ('ident', 'expr', 'ty'):
-                    raise Unsupported(f'macro {item.name}: fragment kind {kind}')
+                    raise Unsupported(f'macro {name}: fragment kind {kind}')
                 self.elems.append(('var', var, kind))
                 i += 4
             else:
@@ -222,6 +239,8 @@ class Macro:
                     ang -= 1
                 if nxt is not None and t.text == nxt and ang == 0:
                     break
+                if kind == 'expr' and t.text in (',', ';', '=>'):
+                    break  # an expression fragment never contains these at depth 0
                 j += 1
             binds[a] = args[i:j]
             i = j
